@@ -98,7 +98,7 @@ func effFormat(cfg string) string {
 func TestC13WriterSink(t *testing.T) {
 	sec := stats.Sec("writer_sink", ruleW)
 	rapid.Check(t, func(t *rapid.T) {
-		cfgFmt := rapid.SampledFrom([]string{"", "", eventlogger.JSONFormat, "text", "custom", "missing"}).Draw(t, "sinkFormat")
+		cfgFmt := rapid.SampledFrom([]string{"", "", eventlogger.JSONFormat, "text", "custom", "missing", "JSON", "Text", "CUSTOM"}).Draw(t, "sinkFormat")
 		mode := rapid.SampledFrom([]int{0, 0, 0, 0, 1, 2, 3}).Draw(t, "writerMode")
 		nconc := rapid.SampledFrom([]int{1, 1, 2, 4, 8, 16}).Draw(t, "concurrency")
 		w := &hw{mode: mode, slow: nconc > 1}
@@ -268,7 +268,7 @@ func TestC13FileSink(t *testing.T) {
 	caseNo := 0
 	rapid.Check(t, func(t *rapid.T) {
 		caseNo++
-		cfgFmt := rapid.SampledFrom([]string{"", "", eventlogger.JSONFormat, "text", "custom", "missing"}).Draw(t, "sinkFormat")
+		cfgFmt := rapid.SampledFrom([]string{"", "", eventlogger.JSONFormat, "text", "custom", "missing", "JSON", "Text", "CUSTOM"}).Draw(t, "sinkFormat")
 		kind := rapid.SampledFrom([]string{"dir", "dir", "dir", "devnull", "stdout", "stderr", "uncreatable", "devfull", "stdout-closed"}).Draw(t, "path")
 		if _, err := os.Stat("/dev/full"); err != nil && kind == "devfull" {
 			kind = "uncreatable"
